@@ -2,6 +2,10 @@
 # Generates MANIFEST.json from the table below (kept in one place so it stays valid).
 import json
 checks = {
+ "C06": dict(cat="exploration",
+   text="Bounded-exhaustive input enumeration with an invariant oracle on the real code: every byte string up to length 4 (thorough 5) over one representative per lexer character class in three contexts, every token string up to length 3 (thorough 4) over a 47-token vocabulary incl. malformed literals, every single-token and single-byte deviation of ~1.9k corpus programs, and scaled programs at each implementation limit; in-memory and file APIs. Worker processes make a panic in a library goroutine attributable to one input.",
+   note="Assumes: the character-class representatives cover the lexer's case analysis; hang = no return within 60 s; inputs whose result needs >2^20 bytes of repeated string are excluded by the property (decided by the reference model).",
+   tech="bounded-exhaustive enumeration of inputs (bytes, tokens, deviations, limit-scaled programs) with a no-crash/no-hang invariant, process-isolated", ref="§4 C06"),
  "C13": dict(cat="fault_enumeration",
    text="Every cut point (crash point of an interrupted writer) of the dump of every accepted corpus program is loaded by the real LoadProg, whole and one byte per read, and must give an error; all 2^16 magic values and version pairs are enumerated. Exhaustive over the stated space, no sampling.",
    note="Trusted: the corpus K∪S reaches every section/constant kind and size class; crash = truncation at a byte boundary. Independent decoder (mc/bc) is used only to locate section boundaries.",
